@@ -1506,6 +1506,50 @@ def b1_break_and_window_laws(F, r):
         r.fail("OptionalBreak::evaluate_route", f"not evaluable: {e}", F.loc(er))
 
 
+def _travel_leg_law(F, r):
+    """one leg for the tour-duration limit: (distance(first->second at departure), arrival + waiting + service - departure) with waiting = max(window start - arrival, 0)"""
+    fid = "vrp_core::construction::enablers::travel_info::calculate_travel_leg"
+    if fid not in F.fns:
+        raise AnchorError(fid)
+    fn = F.fns[fid]
+    e = mir.expr(fn, {"l": 0, "p": []})
+    if not (e[0][0] == "agg" and len(e[0][2]) == 2):
+        r.ok("calculate_travel_leg", "not decided: the result is not built as one (distance, duration) tuple")
+        return
+    dis, dur = e[0][2]
+
+    def bin_(x, op):
+        return (x[0][2], x[0][3]) if x[0][0] == "bin" and x[0][1] == op and not x[1] else None
+    TCD_ = "vrp_core::models::problem::costs::TransportCost::"
+    okd = dis[0][0] == "call" and dis[0][1] == TCD_ + "distance"
+    dep = (("arg", 4), ())
+    ok = False
+    why = "the leg duration is not `arrival + max(window start - arrival, 0) + service duration - departure`"
+    sb = bin_(dur, "Sub")
+    if sb and sb[1] == dep:
+        a1 = bin_(sb[0], "Add")
+        if a1 and a1[1][1][-2:] == (".place", ".duration"):
+            a2 = bin_(a1[0], "Add")
+            if a2:
+                arr, wait = a2
+                aa = bin_(arr, "Add")
+                if aa and dep in aa and any(x[0][0] == "call" and x[0][1] == TCD_ + "duration" for x in aa):
+                    if wait[0][0] == "call" and wait[0][1].endswith("f64>::max") and len(wait[0][2]) == 2:
+                        inner = [x for x in wait[0][2] if x[0][0] == "bin"]
+                        zero = [x for x in wait[0][2] if x[0] == ("const", "0f64")]
+                        ws = bin_(inner[0], "Sub") if inner else None
+                        if zero and ws and ws[0][1][-3:] == (".place", ".time", ".start") and ws[1] == arr:
+                            ok = True
+                        else:
+                            why = "the waiting time is not `max(window start - arrival, 0)`"
+    if ok and okd:
+        r.ok("calculate_travel_leg", "(distance, arrival + waiting + service - departure), waiting = max(tw.start - arrival, 0)")
+    elif not okd:
+        r.fail("calculate_travel_leg", "the first component is not the routing distance of the leg", F.loc(fid))
+    else:
+        r.fail("calculate_travel_leg", why + ": the tour duration limit is tested against a wrong duration", F.loc(fid))
+
+
 def d2_travel_delta_law(F, r):
     """tour distance / duration limits: the change caused by an insertion is (prev->target) + (target->next) - (prev->next), component by component (distance with
     distance, duration with duration); with an open end it is (prev->target) alone. Canonical expressions of calculate_travel_delta."""
@@ -1536,6 +1580,7 @@ def d2_travel_delta_law(F, r):
         else:
             out[("?", str(e)[:40], "")] = sign
         return out
+    _travel_leg_law(F, r)
     aggs = [st for _, _, st in mir.stmts(fn) if st["r"]["k"] == "agg" and st["r"].get("ak") == "tuple" and st["d"]["l"] == 0 and not st["d"]["p"] and len(st["r"]["o"]) == 2]
     if len(aggs) != 2:
         r.ok("calculate_travel_delta", f"not decided: {len(aggs)} result tuples (expected the insertion case and the open-end case)")
